@@ -89,7 +89,7 @@ Record fn := mkFn { fk : fkind; fparams : list Z; fbody : expr; ffixed : asg }.
 Definition func_args (f : fn) : list Z :=
   filter (fun p => negb (has_key p (ffixed f))) (fparams f).
 
-(* f(**kw) *)
+(* f( **kw ) *)
 Definition fn_call (f : fn) (kw : asg) : res Z :=
   match fk f with
   | FExpr =>
@@ -97,7 +97,7 @@ Definition fn_call (f : fn) (kw : asg) : res Z :=
       let expected := func_args f in
       if negb (forallb (fun p => has_key p kw) expected) then Err EType
       else if negb (forallb (fun kv => zmem (fst kv) expected) kw) then Err EType
-      else (* l = kwargs.copy(); l.update(fixed); exp_func(**l) *)
+      else (* l = kwargs.copy(); l.update(fixed); exp_func( **l ) *)
         eval (fun n => match zlookup n (ffixed f) with Some x => Some x | None => zlookup n kw end)
              (fbody f)
   | FPy =>
@@ -113,8 +113,8 @@ Definition fn_call (f : fn) (kw : asg) : res Z :=
 Definition dict_merge (a b : asg) : asg :=
   fold_left (fun d kv => dict_set Z.eqb (fst kv) (snd kv) d) b a.
 
-(* ExpressionFunction.partial(**kw) (merges the already fixed variables; the constructor
-   rejects names that are not in the expression) / functools.partial(f, **kw) (flattens) *)
+(* ExpressionFunction.partial( **kw ) (merges the already fixed variables; the constructor
+   rejects names that are not in the expression) / functools.partial(f, kw...) (flattens) *)
 Definition fn_partial (f : fn) (kw : asg) : res fn :=
   let merged := dict_merge (ffixed f) kw in
   match fk f with
@@ -188,7 +188,7 @@ Fixpoint rm_strides (shape : list nat) : list nat :=
 
 (* NAryMatrixRelation.__init__ with a nested literal of the given shape (row-major data) *)
 Definition mk_mat (vars : list var) (shape : list nat) (data : list Z) : res brel :=
-  if list_eqb Nat.eqb (map (fun v => length (vdom v)) vars) shape
+  if list_eqb Nat.eqb (map (fun v => List.length (vdom v)) vars) shape
   then Ok (RMat (combine vars (rm_strides shape)) data 0%nat)
   else Err EAttr.
 
@@ -227,7 +227,7 @@ Definition fun_gv_list f vars mapping (l : list Z) : res Z :=
 Definition slice_fun (f : fn) (vars : list var) (mapping : list (Z * Z)) (fkw : bool) (p : asg)
   : res brel :=
   if is_nil p then Ok (RFun f vars mapping fkw)
-  else if (length vars <? length p)%nat then Err EValue
+  else if (List.length vars <? List.length p)%nat then Err EValue
   else if negb (forallb (fun kv => zmem (fst kv) (map vname vars)) p) then Err EValue
   else
     let remaining := filter (fun v => negb (has_key (vname v) p)) vars in
@@ -263,7 +263,7 @@ Definition slice_mat (dims : list (var * nat)) (data : list Z) (off : nat) (p : 
 Definition mat_item (r : brel) : res Z :=
   match r with
   | RMat dims data off =>
-      if forallb (fun vs => Nat.eqb (length (vdom (fst vs))) 1%nat) dims
+      if forallb (fun vs => Nat.eqb (List.length (vdom (fst vs))) 1%nat) dims
       then Ok (nth off data 0) else Err EValue
   | _ => Err EAttr
   end.
@@ -316,14 +316,14 @@ Definition bgv_dict (r : brel) (d : asg) : res Z :=
   | RNeutral _ => Ok 0
   end.
 
-(* r(*args) *)
+(* r( *args ) *)
 Definition bcall_pos (r : brel) (l : list Z) : res Z :=
   match r with
   | RZero value => if is_nil l then Ok value else Err EValue
   | _ => bgv_list r l        (* unary kinds: len(args) == 1 else (no kwargs) ValueError *)
   end.
 
-(* r(**kw) *)
+(* r( **kw ) *)
 Definition bcall_kw (r : brel) (kw : asg) : res Z :=
   if is_nil kw then bcall_pos r []
   else match r with
@@ -387,7 +387,7 @@ Definition cond_gv_list (c t : brel) (l : list Z) : res Z :=
 Definition cond_slice (c t : brel) (rn : bool) (p : asg) : res rel :=
   let ca := filter (fun kv => zmem (fst kv) (bnames c)) p in
   let sd := filter (fun kv => zmem (fst kv) (bnames t)) p in
-  if Nat.eqb (length ca) (length (bdims c)) then
+  if Nat.eqb (List.length ca) (List.length (bdims c)) then
     do cv <- bcall_kw c ca;
     if truthy cv then
       (if is_nil sd then Ok (RBase t) else do s <- bslice t sd; Ok (RBase s))
